@@ -89,7 +89,7 @@ Proof.
     as ([n Hn] & R1 & R2 & R3); try assumption.
   { repeat split; try reflexivity; discriminate. }
   exists sp, n. split; [|split; [exact R1|split; [exact R2|exact R3]]].
-  unfold inbound_xfr. rewrite init_ixfr. cbn [Z.eqb tIXFR Pos.eqb app]. rewrite drive_cons.
+  unfold inbound_xfr, xfr_run. rewrite init_ixfr. cbn [Z.eqb tIXFR Pos.eqb app]. rewrite drive_cons.
   rewrite (first_message_ixfr z0 (v_serial v0) false w (soa_rr (last chain v0)) a Hw Hr) by (split; reflexivity).
   cbv zeta. change (r_data (soa_rr (last chain v0)) mod two32) with (v_serial (last chain v0)).
   assert (Hne : (v_serial (last chain v0) =? v_serial v0) = false).
@@ -109,7 +109,7 @@ Theorem ixfr_rcode_fault_rejected : forall v0 chain z0 ws1 w' ws2 q,
 Proof.
   intros v0 chain z0 ws1 w' ws2 q Hok Hz Hh Hq Hcat Hfirst Hrc.
   destruct (ixfr_partial v0 chain z0 ws1 q (w' :: ws2) Hok Hz Hh Hq Hcat Hfirst) as [->|(s1 & n & Hn & R1 & R2 & R3)].
-  - cbn [app]. unfold inbound_xfr. rewrite init_ixfr. cbn [Z.eqb tIXFR Pos.eqb]. rewrite drive_cons.
+  - cbn [app]. unfold inbound_xfr, xfr_run. rewrite init_ixfr. cbn [Z.eqb tIXFR Pos.eqb]. rewrite drive_cons.
     destruct (process_bad_rcode (ixfr_init z0 (v_serial v0) false) (from_wire true w') Hrc) as [s' [Hp Hpub]].
     rewrite Hp. cbn [cont]. rewrite Hpub. eexists; reflexivity.
   - rewrite Hn. rewrite drive_cons.
@@ -129,7 +129,7 @@ Theorem ixfr_question_fault_rejected : forall v0 chain z0 ws1 w' ws2 q qn qt qs,
 Proof.
   intros v0 chain z0 ws1 w' ws2 q qn qt qs Hok Hz Hh Hq Hcat Hfirst Hrc Hqq Hbad.
   destruct (ixfr_partial v0 chain z0 ws1 q (w' :: ws2) Hok Hz Hh Hq Hcat Hfirst) as [->|(s1 & n & Hn & R1 & R2 & R3)].
-  - cbn [app]. unfold inbound_xfr. rewrite init_ixfr. cbn [Z.eqb tIXFR Pos.eqb]. rewrite drive_cons.
+  - cbn [app]. unfold inbound_xfr, xfr_run. rewrite init_ixfr. cbn [Z.eqb tIXFR Pos.eqb]. rewrite drive_cons.
     destruct (process_bad_question (ixfr_init z0 (v_serial v0) false) (from_wire true w') qn qt qs Hrc Hqq Hbad)
       as (s' & e & Hp & He & Hpub).
     rewrite Hp. cbn [cont]. rewrite Hpub. exists e. eexists. split; [exact He|reflexivity].
@@ -167,10 +167,10 @@ Theorem axfr_early_end_rejected : forall v z0 ser ws q,
 Proof.
   intros v z0 ser ws q [Httl Hwf] Hh Hq Hcat.
   destruct ws as [|w ws'].
-  { unfold inbound_xfr. rewrite init_axfr. cbn. eauto. }
+  { unfold inbound_xfr, xfr_run. rewrite init_axfr. cbn. eauto. }
   inversion Hh as [|? ? Hw Hws]; subst.
   destruct (w_records w) as [|r0 a] eqn:Hr.
-  { unfold inbound_xfr. rewrite init_axfr. cbn [Z.eqb tAXFR tIXFR Pos.eqb]. rewrite drive_cons.
+  { unfold inbound_xfr, xfr_run. rewrite init_axfr. cbn [Z.eqb tAXFR tIXFR Pos.eqb]. rewrite drive_cons.
     unfold process_message, from_wire. cbn [txn axfr_init incremental pub set_txn rdtype m_rcode m_question m_answer].
     destruct Hw as [Hrc Hqq]. rewrite Hrc. cbn [Z.eqb negb]. rewrite (header_ok_question tAXFR w (conj Hrc Hqq)).
     cbn [soa]. rewrite Hr. cbn. eauto. }
@@ -179,7 +179,7 @@ Proof.
   rewrite app_assoc in Hcat'. apply app_snoc_split in Hcat'.
   destruct Hcat' as [[c' [Hbody Hq']]|[_ Hq']]; [|congruence].
   pose proof (body_plain _ Hwf) as Hpl. rewrite Hbody in Hpl. apply Forall_app in Hpl. destruct Hpl as [Hpl _].
-  unfold inbound_xfr. rewrite init_axfr. cbn [Z.eqb tAXFR tIXFR Pos.eqb]. rewrite drive_cons.
+  unfold inbound_xfr, xfr_run. rewrite init_axfr. cbn [Z.eqb tAXFR tIXFR Pos.eqb]. rewrite drive_cons.
   rewrite (first_message_axfr z0 ser w (soa_rr v) a Hw Hr) by (split; reflexivity).
   destruct (cont_full_eof ws' false (map single) a tAXFR z0 [] (match ser with Some sv => sv | None => 0 end)
               (single (soa_rr v)) parse_single_ok parse_group_ok Hws Hpl) as [n Hn].
@@ -211,7 +211,15 @@ Proof.
       cbn [expecting incremental serial set_delmode] in H.
       destruct (expecting s); [inversion H; subst; left; reflexivity|].
       match type of H with (if ?c then _ else _) = _ => destruct c end; [inversion H; subst; left; reflexivity|].
-      destruct l; cbn [negb] in H; [|inversion H; subst; left; reflexivity].
+      assert (HC :
+        res_of (set_delmode s (if incremental s then negb (delmode s) else delmode s)) (t_add true tz r)
+          (fun tz' => (set_done (set_txn (set_pub (set_delmode s (if incremental s then negb (delmode s) else delmode s)) tz') None) true, None))
+        = (s', o) \/ pub s' = pub s).
+      { destruct l; [right; inversion H; subst; reflexivity| |].
+        - cbn [req_tsig set_delmode] in H. rewrite andb_false_r in H. left; exact H.
+        - cbn [req_tsig set_delmode] in H. rewrite andb_true_r in H.
+          destruct (req_tsig s); [right; inversion H; subst; reflexivity|left; exact H]. }
+      clear H. destruct HC as [H|HC]; [|left; exact HC].
       unfold t_add in H. destruct (s_data r) as [|d0 ds0] eqn:Ed; [inversion H; subst; left; reflexivity|]. rewrite <- Ed in H.
       destruct (negb (s_class r =? cIN)); [inversion H; subst; left; reflexivity|].
       destruct ((s_type r =? tSOA) && negb (s_name r =? origin)); [inversion H; subst; left; reflexivity|].
@@ -238,10 +246,10 @@ Proof.
           apply res_of_pub in H; destruct H as [[tz' [_ Hk]]|[-> _]]; [inversion Hk; subst| |inversion Hk; subst|]; left; reflexivity.
 Qed.
 
-Lemma loop_commit : forall rs s s' o, loop s rs = (s', o) ->
+Lemma loop_commit : forall sg rs s s' o, loopT sg s rs = (s', o) ->
   pub s' = pub s \/ (exists s0, soa s = Some s0 /\ announced s0 (pub s')).
 Proof.
-  induction rs as [|r rest IH]; intros s s' o H; cbn [loop] in H.
+  intros sg. induction rs as [|r rest IH]; intros s s' o H; cbn [loopT] in H.
   - inversion H; subst. left; reflexivity.
   - destruct (step _ s r) as [s1 [e|]] eqn:Hs.
     + inversion H; subst. apply step_commit in Hs. exact Hs.
@@ -253,7 +261,7 @@ Proof.
         -- left. congruence.
         -- right. exists s0. split; [congruence|exact Ha].
       * (* the commit step is the last of the message *)
-        destruct rest; [|discriminate]. clear IH.
+        destruct rest; [|exfalso; apply Hl; reflexivity]. clear IH.
         destruct Hs as [Hs|Hs]; [|destruct H as [H|[s0 [Hs0 Ha]]]].
         -- destruct H as [H|[s0 [Hs0 Ha]]]; [left; congruence|right; exists s0; split; [congruence|exact Ha]].
         -- destruct Hs as [s0 [Hs0 Ha]]. right. exists s0. split; [exact Hs0|]. rewrite H. exact Ha.
@@ -290,14 +298,14 @@ Proof.
      (pub s' = pub sx \/ exists s0, soa s' = Some s0 /\ announced s0 (pub s'))).
   { intros e E. inversion E; subst. split; [auto|]. split; [intros _ F; discriminate|left; reflexivity]. }
   assert (LOOP : forall sa rs, soa sa <> None -> pub sa = pub sx ->
-     (match loop sa rs with
+     (match loopT (m_tsig m) sa rs with
       | (s1, Some e) => (s1, Some e)
       | (s1, None) => if is_udp s1 && negb (done s1) then (s1, Some eUDPEnd) else (s1, None)
       end) = (s', o) ->
      soa s' = soa sa /\ (pub s' = pub sx \/ exists s0, soa s' = Some s0 /\ announced s0 (pub s'))).
   { intros sa rs Hsa Hpa HA. pose proof (after_same _ _ _ HA) as Hf.
-    destruct (loop sa rs) as [s1 o1] eqn:Hl. cbn [fst] in Hf. subst s1.
-    pose proof (loop_inv _ _ _ _ Hl) as (Hsoa & _). split; [exact Hsoa|].
+    destruct (loopT (m_tsig m) sa rs) as [s1 o1] eqn:Hl. cbn [fst] in Hf. subst s1.
+    pose proof (loop_inv _ _ _ _ _ Hl) as (Hsoa & _). split; [exact Hsoa|].
     apply loop_commit in Hl. destruct Hl as [Hl|[s0 [Hs Ha]]]; [left; congruence|].
     right. exists s0. split; [congruence|exact Ha]. }
   destruct (negb (m_rcode m =? 0)); [apply TRIV with (e := eTransfer); exact H|].
@@ -315,7 +323,7 @@ Proof.
     { inversion H; subst. split; [intros _ F; discriminate|left; reflexivity]. }
     cbn [incremental set_soa] in H.
     assert (FIN : forall sa, soa sa = Some r0 -> pub sa = pub sx ->
-       (match loop sa rest with
+       (match loopT (m_tsig m) sa rest with
         | (s1, Some e) => (s1, Some e)
         | (s1, None) => if is_udp s1 && negb (done s1) then (s1, Some eUDPEnd) else (s1, None)
         end) = (s', o) ->
@@ -374,19 +382,25 @@ Qed.
 
 (* A completed transfer, whatever was received: the zone is untouched (the up-to-date answer), or
    it holds the SOA announced by the first record of the response - hence the server's serial. *)
-Theorem done_has_announced_soa : forall z rdt ser udp ws z' n,
-  inbound_xfr z rdt ser udp ws = (Done z', n) ->
+Theorem done_has_announced_soa_t : forall req z rdt ser udp ws z' n,
+  xfr_run req z rdt ser udp ws = (Done z', n) ->
   z' = z \/ exists w ws' r0 rs, ws = w :: ws' /\ group (rdt =? tIXFR) (w_records w) = r0 :: rs
                                  /\ announced r0 z'.
 Proof.
-  intros z rdt ser udp ws z' n H. unfold inbound_xfr in H.
-  destruct (init z rdt ser udp) as [s|e] eqn:Hi; [|discriminate].
+  intros req z rdt ser udp ws z' n H. unfold xfr_run in H.
+  destruct (init_t req z rdt ser udp) as [s|e] eqn:Hi; [|discriminate].
   assert (Hs : pub s = z /\ soa s = None).
-  { unfold init in Hi. destruct (rdt =? tIXFR).
+  { unfold init_t in Hi. destruct (rdt =? tIXFR).
     - destruct ser; inversion Hi; auto.
     - destruct (rdt =? tAXFR); [|discriminate]. destruct udp; inversion Hi; auto. }
   destruct Hs as [Hp Hsoa]. apply drive_done_announced in H. rewrite Hp, Hsoa in H. exact H.
 Qed.
+
+Theorem done_has_announced_soa : forall z rdt ser udp ws z' n,
+  inbound_xfr z rdt ser udp ws = (Done z', n) ->
+  z' = z \/ exists w ws' r0 rs, ws = w :: ws' /\ group (rdt =? tIXFR) (w_records w) = r0 :: rs
+                                 /\ announced r0 z'.
+Proof. intros z rdt ser udp ws z' n. apply done_has_announced_soa_t. Qed.
 
 (* UDP: the datagram holds the first SOA and a proper, non-empty prefix of the rest of a valid
    response: "unexpected end of UDP IXFR" *)
@@ -409,7 +423,7 @@ Proof.
   assert (Hpub : pub sp = z0).
   { apply loop_pub in Hlp. destruct Hlp as [?|[_ [? _]]]; [assumption|congruence]. }
   assert (Hudp : is_udp sp = true) by (apply loop_inv in Hlp; destruct Hlp as (_ & H & _); exact H).
-  unfold inbound_xfr. rewrite init_ixfr. cbn [Z.eqb tIXFR Pos.eqb]. rewrite drive_cons.
+  unfold inbound_xfr, xfr_run. rewrite init_ixfr. cbn [Z.eqb tIXFR Pos.eqb]. rewrite drive_cons.
   rewrite (first_message_ixfr z0 (v_serial v0) true w (soa_rr (last chain v0)) a Hw Hr) by (split; reflexivity).
   cbv zeta. change (r_data (soa_rr (last chain v0)) mod two32) with (v_serial (last chain v0)).
   assert (Hne : (v_serial (last chain v0) =? v_serial v0) = false).
@@ -440,10 +454,10 @@ Lemma loop_app_error : forall l1 s s1 y l2 s' e,
   loopn s l1 = (s1, None) -> (forall l, step l s1 y = (s', Some e)) ->
   loop s (l1 ++ y :: l2) = (s', Some e).
 Proof.
-  induction l1 as [|r l1 IH]; intros s s1 y l2 s' e Hl Hy; cbn [app loop loopn] in *.
+  induction l1 as [|r l1 IH]; intros s s1 y l2 s' e Hl Hy; cbn [app loopT loopn] in *.
   - inversion Hl; subst. rewrite Hy. reflexivity.
-  - assert (E : match l1 ++ y :: l2 with [] => true | _ :: _ => false end = false) by (destruct l1; reflexivity).
-    rewrite E. destruct (step false s r) as [sa [e0|]]; [discriminate|]. eapply IH; eassumption.
+  - assert (E : match l1 ++ y :: l2 with [] => Last | _ :: _ => Mid end = Mid) by (destruct l1; reflexivity).
+    rewrite E. destruct (step Mid s r) as [sa [e0|]]; [discriminate|]. eapply IH; eassumption.
 Qed.
 
 (* an error that is certain once the records c have been processed, wherever the message
@@ -501,7 +515,7 @@ Theorem ixfr_corrupt_serial_rejected : forall v0 pre vn bad rest z0 ws,
 Proof.
   intros v0 pre vn bad rest z0 ws Hv0 Hpre Hz Hd Hne Hlt Hbs Hbser Hch.
   apply chunking_first in Hch. destruct Hch as (w & ws' & a & -> & Hr & Hw & Hws & Hcat).
-  unfold inbound_xfr. rewrite init_ixfr. cbn [Z.eqb tIXFR Pos.eqb]. rewrite drive_cons.
+  unfold inbound_xfr, xfr_run. rewrite init_ixfr. cbn [Z.eqb tIXFR Pos.eqb]. rewrite drive_cons.
   rewrite (first_message_ixfr z0 (v_serial v0) false w (soa_rr vn) a Hw Hr) by (split; reflexivity).
   cbv zeta. change (r_data (soa_rr vn) mod two32) with (v_serial vn).
   apply Z.eqb_neq in Hne. rewrite Hne, Hlt. cbn [andb]. rewrite after_tcp by reflexivity.
@@ -547,7 +561,7 @@ Theorem ixfr_bad_delete_rejected : forall v0 pre vn D1 r z1 rest z0 ws,
 Proof.
   intros v0 pre vn D1 r z1 rest z0 ws Hv0 Hpre Hz Hd Hne Hlt HD1 Hr Hdels Hdel Hch.
   apply chunking_first in Hch. destruct Hch as (w & ws' & a & -> & Hrec & Hw & Hws & Hcat).
-  unfold inbound_xfr. rewrite init_ixfr. cbn [Z.eqb tIXFR Pos.eqb]. rewrite drive_cons.
+  unfold inbound_xfr, xfr_run. rewrite init_ixfr. cbn [Z.eqb tIXFR Pos.eqb]. rewrite drive_cons.
   rewrite (first_message_ixfr z0 (v_serial v0) false w (soa_rr vn) a Hw Hrec) by (split; reflexivity).
   cbv zeta. change (r_data (soa_rr vn) mod two32) with (v_serial vn).
   apply Z.eqb_neq in Hne. rewrite Hne, Hlt. cbn [andb]. rewrite after_tcp by reflexivity.
